@@ -28,7 +28,7 @@ Definition b64_cont (d : dec64) (val : N) : outcome (dec64 * option N) :=
   else Ok (mk64 buf' next' (d64_target d), None).
 
 Lemma b64_push_unfold d ch :
-  b64_push d ch =
+  b64_push_char d ch =
   if d64_next d =? b64_push_eof then
     Ok (mk64 (d64_buf d) (d64_next d) (Err E_TRAILING), Some E_TRAILING)
   else if ch =? b64_pad then
@@ -38,9 +38,22 @@ Lemma b64_push_unfold d ch :
        if v =? b64_illegal_val then Ok (d, Some (E_illegal ch)) else b64_cont d v.
 Proof. reflexivity. Qed.
 
+Lemma dfc64 d ch r :
+  b64_decode_from d (ch :: r) =
+  match b64_push_char d ch with
+  | Ok (d', None) => b64_decode_from d' r
+  | Ok (_, Some e) => Err e
+  | Err e => Err e
+  | Panic p => Panic p
+  | OutOfFuel => OutOfFuel
+  end.
+Proof. reflexivity. Qed.
+Lemma dfn64 d : b64_decode_from d [] = b64_finalize d.
+Proof. reflexivity. Qed.
+
 (* push of a non-pad character, in terms of the RFC alphabet position *)
 Lemma b64_push_sem d ch : d64_next d <> 240 -> ch <> 61 ->
-  b64_push d ch = match val64 ch with
+  b64_push_char d ch = match val64 ch with
                   | None => Ok (d, Some (E_illegal ch))
                   | Some v => b64_cont d v
                   end.
@@ -57,7 +70,7 @@ Proof.
 Qed.
 
 Lemma b64_push_pad d : d64_next d <> 240 ->
-  b64_push d 61 = if d64_next d <? 2 then Ok (d, Some (E_illegal 61)) else b64_cont d 128.
+  b64_push_char d 61 = if d64_next d <? 2 then Ok (d, Some (E_illegal 61)) else b64_cont d 128.
 Proof.
   intros Hn. rewrite b64_push_unfold. cbv [b64_push_eof b64_pad b64_push_pad_min b64_push_pad_val].
   destruct (N.eqb_spec (d64_next d) 240); [contradiction|]. reflexivity.
@@ -66,7 +79,7 @@ Qed.
 (* a character that is not in the alphabet is refused in positions 0 and 1
    ('=' included: it has no alphabet position) *)
 Lemma b64_push_bad_early d ch : d64_next d < 2 -> val64 ch = None ->
-  b64_push d ch = Ok (d, Some (E_illegal ch)).
+  b64_push_char d ch = Ok (d, Some (E_illegal ch)).
 Proof.
   intros Hn V. destruct (N.eq_dec ch 61) as [->|Hc].
   - rewrite b64_push_pad by lia. destruct (N.ltb_spec (d64_next d) 2); [reflexivity|lia].
@@ -135,50 +148,43 @@ Definition agree (o : outcome (list N)) (sp : option (list N)) (acc : list N) : 
   | None => exists e, o = Err e
   end.
 
-Lemma list_ind4 {A} (P : list A -> Prop) :
-  P [] -> (forall a, P [a]) -> (forall a b, P [a; b]) -> (forall a b c, P [a; b; c]) ->
-  (forall a b c d r, P r -> P (a :: b :: c :: d :: r)) -> forall l, P l.
-Proof.
-  intros H0 H1 H2 H3 H4. fix IH 1. intros [|a [|b [|c [|d r]]]];
-    [exact H0|exact (H1 a)|exact (H2 a b)|exact (H3 a b c)|exact (H4 a b c d r (IH r))].
-Qed.
 
 (* one decoding step on a state with a known small `next` *)
 Lemma step_bad x0 x1 x2 x3 n t ch r : n < 2 -> val64 ch = None ->
   b64_decode_from (mk64 (x0, x1, x2, x3) n t) (ch :: r) = Err (E_illegal ch).
 Proof.
-  intros Hn V. cbn [b64_decode_from]. rewrite b64_push_bad_early by (cbn; assumption). reflexivity.
+  intros Hn V. rewrite dfc64. rewrite b64_push_bad_early by (cbn; assumption). reflexivity.
 Qed.
 Lemma step_ok0 x0 x1 x2 x3 t ch v r : val64 ch = Some v ->
   b64_decode_from (mk64 (x0, x1, x2, x3) 0 t) (ch :: r) = b64_decode_from (mk64 (v, x1, x2, x3) 1 t) r.
 Proof.
-  intros V. cbn [b64_decode_from].
+  intros V. rewrite dfc64.
   rewrite b64_push_sem by (cbn; first [discriminate | intros ->; rewrite val64_pad in V; discriminate]).
   rewrite V, cont_0. reflexivity.
 Qed.
 Lemma step_ok1 x0 x1 x2 x3 t ch v r : val64 ch = Some v ->
   b64_decode_from (mk64 (x0, x1, x2, x3) 1 t) (ch :: r) = b64_decode_from (mk64 (x0, v, x2, x3) 2 t) r.
 Proof.
-  intros V. cbn [b64_decode_from].
+  intros V. rewrite dfc64.
   rewrite b64_push_sem by (cbn; first [discriminate | intros ->; rewrite val64_pad in V; discriminate]).
   rewrite V, cont_1. reflexivity.
 Qed.
 Lemma step_ok2 x0 x1 x2 x3 t ch v r : val64 ch = Some v ->
   b64_decode_from (mk64 (x0, x1, x2, x3) 2 t) (ch :: r) = b64_decode_from (mk64 (x0, x1, v, x3) 3 t) r.
 Proof.
-  intros V. cbn [b64_decode_from].
+  intros V. rewrite dfc64.
   rewrite b64_push_sem by (cbn; first [discriminate | intros ->; rewrite val64_pad in V; discriminate]).
   rewrite V, cont_2. reflexivity.
 Qed.
 Lemma step_pad2 x0 x1 x2 x3 t r :
   b64_decode_from (mk64 (x0, x1, x2, x3) 2 t) (61 :: r) = b64_decode_from (mk64 (x0, x1, 128, x3) 3 t) r.
 Proof.
-  cbn [b64_decode_from]. rewrite b64_push_pad by (cbn; discriminate). reflexivity.
+  rewrite dfc64. rewrite b64_push_pad by (cbn; discriminate). reflexivity.
 Qed.
 Lemma step_bad_late x0 x1 x2 x3 n t ch r : n <> 240 -> ch <> 61 -> val64 ch = None ->
   b64_decode_from (mk64 (x0, x1, x2, x3) n t) (ch :: r) = Err (E_illegal ch).
 Proof.
-  intros Hn Hc V. cbn [b64_decode_from]. rewrite b64_push_sem by (cbn; assumption).
+  intros Hn Hc V. rewrite dfc64. rewrite b64_push_sem by (cbn; assumption).
   rewrite V. reflexivity.
 Qed.
 Lemma step_eof b t ch r :
@@ -194,7 +200,7 @@ Lemma step3_vv x0 x1 x2 x3 acc ch v r : x2 < 64 -> val64 ch = Some v ->
   b64_decode_from (mk64 (x0, x1, x2, v) 0
      (Ok (acc ++ [b64_oct0 x0 x1 x2 v; b64_oct1 x0 x1 x2 v; b64_oct2 x0 x1 x2 v]))) r.
 Proof.
-  intros H2 V. cbn [b64_decode_from].
+  intros H2 V. rewrite dfc64.
   rewrite b64_push_sem by (cbn; first [discriminate | intros ->; rewrite val64_pad in V; discriminate]).
   rewrite V, cont_3. cbv zeta. rewrite (ne128 x2 H2), (ne128 v (val64_lt _ _ V)). cbn [negb].
   rewrite <- !app_assoc. reflexivity.
@@ -204,7 +210,7 @@ Lemma step3_vp x0 x1 x2 x3 acc r : x2 < 64 ->
   b64_decode_from (mk64 (x0, x1, x2, 128) 240
      (Ok (acc ++ [b64_oct0 x0 x1 x2 128; b64_oct1 x0 x1 x2 128]))) r.
 Proof.
-  intros H2. cbn [b64_decode_from]. rewrite b64_push_pad by (cbn; discriminate).
+  intros H2. rewrite dfc64. rewrite b64_push_pad by (cbn; discriminate).
   cbn [d64_next N.ltb N.compare Pos.compare Pos.compare_cont].
   rewrite cont_3. cbv zeta. rewrite (ne128 x2 H2). cbn [negb N.eqb Pos.eqb].
   rewrite <- !app_assoc. reflexivity.
@@ -213,12 +219,12 @@ Lemma step3_pp x0 x1 x3 acc r :
   b64_decode_from (mk64 (x0, x1, 128, x3) 3 (Ok acc)) (61 :: r) =
   b64_decode_from (mk64 (x0, x1, 128, 128) 240 (Ok (acc ++ [b64_oct0 x0 x1 128 128]))) r.
 Proof.
-  cbn [b64_decode_from]. rewrite b64_push_pad by (cbn; discriminate). reflexivity.
+  rewrite dfc64. rewrite b64_push_pad by (cbn; discriminate). reflexivity.
 Qed.
 Lemma step3_pv x0 x1 x3 acc ch v r : val64 ch = Some v ->
   b64_decode_from (mk64 (x0, x1, 128, x3) 3 (Ok acc)) (ch :: r) = Err E_TRAILING.
 Proof.
-  intros V. cbn [b64_decode_from].
+  intros V. rewrite dfc64.
   rewrite b64_push_sem by (cbn; first [discriminate | intros ->; rewrite val64_pad in V; discriminate]).
   rewrite V, cont_3. cbv zeta. rewrite (ne128 v (val64_lt _ _ V)). reflexivity.
 Qed.
@@ -297,12 +303,54 @@ Proof.
            ++ exact IH.
 Qed.
 
+(* `decode` stops at the first error, so making errors final (the repaired
+   `push`) does not change it: everything proved about `decode` holds for the
+   code with and without pending/C18-base64-decoder.diff *)
+Lemma b64_cont_target d v d' acc : d64_target d = Ok acc ->
+  b64_cont d v = Ok (d', None) -> exists acc', d64_target d' = Ok acc'.
+Proof.
+  destruct d as [[[[x0 x1] x2] x3] n t]. cbn [d64_target]. intros ->.
+  unfold b64_cont, buf4_set. cbn [d64_buf d64_next d64_target].
+  destruct (n =? 0); [|destruct (n =? 1); [|destruct (n =? 2); [|destruct (n =? 3)]]];
+    cbn [bind]; try discriminate;
+    (destruct (n + 1 =? b64_group); [|intros H; injection H as <-; cbn; eauto]);
+    repeat match goal with |- context [if ?c then _ else _] => destruct c end;
+    intros H; try discriminate; injection H as <-; cbn; eauto.
+Qed.
+
+Lemma b64_push_char_target d ch d' acc : d64_target d = Ok acc ->
+  b64_push_char d ch = Ok (d', None) -> exists acc', d64_target d' = Ok acc'.
+Proof.
+  intros T. rewrite b64_push_unfold.
+  destruct (d64_next d =? b64_push_eof); [discriminate|].
+  destruct (ch =? b64_pad).
+  - destruct (d64_next d <? b64_push_pad_min); [discriminate|]. apply b64_cont_target with (acc := acc), T.
+  - destruct (b64_ascii_max <? ch); [discriminate|].
+    destruct (tab_get b64_decode_tab ch) as [v| | |]; cbn [bind]; try discriminate.
+    destruct (v =? b64_illegal_val); [discriminate|]. apply b64_cont_target with (acc := acc), T.
+Qed.
+
+Lemma b64_decode_from_fix_same s : forall d acc, d64_target d = Ok acc ->
+  b64_decode_from_with true d s = b64_decode_from_with false d s.
+Proof.
+  induction s as [|ch r IH]; intros d acc T; [reflexivity|].
+  cbn [b64_decode_from_with b64_push_with]. rewrite T.
+  destruct (b64_push_char d ch) as [[d' [e|]]| | |] eqn:E; try reflexivity.
+  destruct (b64_push_char_target d ch d' acc T E) as [acc' T']. apply (IH d' acc' T').
+Qed.
+
+Lemma b64_decode_is_cur s : b64_decode s = b64_decode_from b64_new s.
+Proof.
+  unfold b64_decode, b64_decode_from. destruct b64_push_sticky; [|reflexivity].
+  apply (b64_decode_from_fix_same s b64_new []). reflexivity.
+Qed.
+
 Theorem b64_decode_spec s :
   match spec_dec64 s with
   | Some bs => b64_decode s = Ok bs
   | None => exists e, b64_decode s = Err e
   end.
-Proof. exact (b64_decode_from_spec s (0, 0, 0, 0) []). Qed.
+Proof. rewrite b64_decode_is_cur. exact (b64_decode_from_spec s (0, 0, 0, 0) []). Qed.
 
 (* accepts exactly well-formed text, with exactly the specified octets *)
 Theorem b64_accepts_iff_wellformed s bs : b64_decode s = Ok bs <-> spec_dec64 s = Some bs.
